@@ -35,6 +35,8 @@ MSG_NAMES = {
     # List / Dict / Optional are excluded by construction (known finding: they shadow the typing imports of the
     # generated module; probed separately by C03's fixed probe cases)
     "keywordish": ["None_", "Type", "Message", "Enum", "none", "Self", "Any"],
+    # user-defined types that are merely NAMED like well-known types (they live in the user's package)
+    "wkt_like": ["StringValue", "BoolValue", "Int32Value", "MessageValue", "MapValue", "Timestamp", "Duration", "Empty", "Struct", "Value"],
 }
 FIELD_NAMES = {
     "conventional": ["value", "name", "count", "user_id", "payload", "items", "flag", "amount", "created_at", "kind"],
@@ -49,7 +51,7 @@ FIELD_NAMES = {
     "camel": ["fooBar", "someValue2", "aB"],
     "soft_keyword": ["match", "case"],
 }
-ENUM_NAMES = ["Color", "Kind", "Status", "Mode", "level", "HTTPMethod", "Type_"]
+ENUM_NAMES = ["Color", "Kind", "Status", "Mode", "level", "HTTPMethod", "Type_", "EnumValue", "BytesValue", "NullValue"]
 ENUM_VALUE_WORDS = ["UNKNOWN", "RED", "ON", "OFF", "A", "B", "None", "DEFAULT", "V1", "x", "lower_val", "CamelVal", "TWO_WORDS"]
 SERVICE_NAMES = ["Svc", "Greeter", "DataAPI", "lower_service", "HTTPService", "_3DSecure", "__2fa", "none", "Type"]
 METHOD_NAMES = ["Get", "List", "DoThing", "get_item", "StreamIt", "HTTPCall", "import", "class", "Print", "Send2", "x"]
